@@ -66,7 +66,7 @@ func main() {
 	out.Line("cfg resumeInner=%v defaultFreq=%d lenientEOF=%v", probeResumeInner(in), certstore.VerifDefaultPowerTableFrequency, probeLenientEOF(in))
 
 	if mode == "c09" || mode == "all" {
-		n, ops := vh.EnvInt("VERIF_STORE_HIST", 500), 160
+		n, ops := vh.EnvInt("VERIF_STORE_HIST", 1000), 160
 		if thorough {
 			n, ops = vh.EnvInt("VERIF_STORE_HIST", 4000), 400
 		}
@@ -78,17 +78,27 @@ func main() {
 			runHistory(out, in, rng.Fork(uint64(i)), histCfg{ops: l, label: fmt.Sprintf("c09-history-%d", i)})
 		}
 	}
-	if mode == "c10" || mode == "all" {
-		n, ops := vh.EnvInt("VERIF_STORE_CRASH", 300), 28
+	if mode == "c09" || mode == "conc" || mode == "all" {
+		n := vh.EnvInt("VERIF_STORE_CONC", 25)
 		if thorough {
-			n, ops = vh.EnvInt("VERIF_STORE_CRASH", 4000), 40
+			n = vh.EnvInt("VERIF_STORE_CONC", 150)
+		}
+		out.Line("new freq=2 concurrent-phase")
+		for i := 0; i < n; i++ {
+			runConcurrent(out, in, rng.Fork(uint64(3000000+i)), i)
+		}
+	}
+	if mode == "c10" || mode == "all" {
+		n, ops := vh.EnvInt("VERIF_STORE_CRASH", 500), 28
+		if thorough {
+			n, ops = vh.EnvInt("VERIF_STORE_CRASH", 3000), 40
 		}
 		for i := 0; i < n; i++ {
 			runHistory(out, in, rng.Fork(uint64(1000000+i)), histCfg{ops: ops, crashEnum: true, crashMain: 15, label: fmt.Sprintf("c10-history-%d", i)})
 		}
 	}
 	if mode == "c17" || mode == "all" {
-		n := vh.EnvInt("VERIF_STORE_SNAP", 100)
+		n := vh.EnvInt("VERIF_STORE_SNAP", 150)
 		if thorough {
 			n = vh.EnvInt("VERIF_STORE_SNAP", 45)
 		}
